@@ -52,6 +52,17 @@ Fixpoint commit_q_seq (root : tree) (q : list (bool * list nat)) (stored : list 
 Definition commit_q (root : tree) (p : pstate) (q : list (bool * list nat)) (s : store Z) : pstate * store Z :=
   let '(stored', s') := commit_q_seq root q (p_stored p) s in (mkP stored' [] [], s').
 
+(* the hypothesis `synced` of C04_commit_partial, as a boolean *)
+Definition synced_b (t : tree) (p : pstate) (s : store Z) : bool :=
+  forallb (fun i => match find_node Z t i with
+                    | Some n => negb (mem i (p_stored p)) || mem i (p_changed p) ||
+                                match sget Z s i with
+                                | Some r => record_eqb r (getstate Z (p_stored p) t n)
+                                | None => false
+                                end
+                    | None => true
+                    end) (ids Z t).
+
 Record world := mkW { w_st : st; w_p : pstate; w_store : store Z; w_saved : tree; w_saved_stored : list nat }.
 
 Inductive pstep :=
@@ -98,12 +109,17 @@ Definition step_ok (vs isC : bool) (ml mi : nat) (w : world) (s : pstep) : world
           kvl_eqb (map kv_of (reader_iter Z (S (length s1)) s1 root_id)) chain &&
           set_eqb sp (in_tree t (p_stored p1)) &&
           (* sanity of the commit / reader statements (C04) on this very commit *)
+          (* (the store facts are asserted: they hold at every real commit; dumps_ok is a
+              hypothesis: a real commit violates it when a registered object that is no
+              longer part of the tree still references the leaf embedded in the root --
+              finding F33 -- and then the theorem does not apply) *)
           (negb (no_embed_below_b true (p_stored (w_p w)) t) ||
            (no_stray_b t (p_stored (w_p w)) (w_store w) && refs_closed_b t (w_p w) &&
-            dumps_ok_b t (p_stored (w_p w)) (flat_map (fun q : bool * list nat => if fst q then snd q else []) seqids) &&
-            current_b t (p_stored p1) s1 && all_stored_b t (p_stored p1) &&
-            kvl_eqb (map kv_of (load_items Z fuel s1 root_id)) (map kv_of (contents Z t)) &&
-            kvl_eqb (map kv_of (reader_iter Z (S (length s1)) s1 root_id)) (map kv_of (contents Z t)))) in
+            (negb (dumps_ok_b t (p_stored (w_p w)) (flat_map (fun q : bool * list nat => if fst q then snd q else []) seqids)) ||
+             negb (synced_b t (w_p w) (w_store w)) ||   (* broken only by an earlier commit of the F33 kind *)
+             (current_b t (p_stored p1) s1 && all_stored_b t (p_stored p1) &&
+              kvl_eqb (map kv_of (load_items Z fuel s1 root_id)) (map kv_of (contents Z t)) &&
+              kvl_eqb (map kv_of (reader_iter Z (S (length s1)) s1 root_id)) (map kv_of (contents Z t)))))) in
       (mkW (w_st w) p1 s1 t (p_stored p1), ok)
     | _, _ => (w, false)
     end
